@@ -587,152 +587,152 @@ func ruleOp2Table(p *Prog, r *Result) {
 		n++
 		var classify func(dataV, posV ssa.Value, atoms []Atom, at *ssa.BasicBlock, tag string)
 		classify = func(dataV, posV ssa.Value, atoms []Atom, at *ssa.BasicBlock, tag string) {
-		if s, isC := constString(dataV); isC {
-			key := fmt.Sprintf("tok|%q", s) + tag
-			if tpc, ok := constInt(tpV); !ok || tpc != opTok {
-				r.hit(key, p.InstrPos(al), "constant-text token is not an OPERATOR token")
-				return
-			}
-			if _, isOp := s2o[s]; !isOp {
-				r.hit(key, p.InstrPos(al), "operator token text is not an operator spelling")
-				return
-			}
-			if len(s) == 2 {
-				prevOK, eqOK := false, false
-				for _, a := range atoms {
-					if a.Op == token.EQL {
-						if c, ok := constInt(a.Y); ok {
-							if _, isPhi := a.X.(*ssa.Phi); isPhi && c == int64(s[0]) {
-								prevOK = true
-							}
-							if a.X == char && c == int64(s[1]) {
-								eqOK = true
-							}
-						}
-					}
-				}
-				posOK := false
-				if bo, ok := posV.(*ssa.BinOp); ok && bo.Op == token.SUB && bo.X == idx {
-					if c, ok := constInt(bo.Y); ok && c == 1 {
-						posOK = true
-					}
-				}
-				// look-ahead form: current character s[0], next character s[1], token at the current index, and the
-				// second byte is consumed (the index advances by two on every way from here to the next iteration)
-				curOK, nextOK := false, false
-				for _, a := range atoms {
-					if a.Op == token.EQL {
-						if c, ok := constInt(a.Y); ok {
-							if a.X == char && c == int64(s[0]) {
-								curOK = true
-							}
-							if isNextChar(p, a.X, idx) && c == int64(s[1]) {
-								nextOK = true
-							}
-						}
-					}
-				}
-				if curOK && nextOK && !(prevOK && eqOK) {
-					inLoop := map[*ssa.BasicBlock]bool{}
-					var fill func(b *ssa.BasicBlock)
-					fill = func(b *ssa.BasicBlock) {
-						if inLoop[b] || b == L.Header {
-							return
-						}
-						inLoop[b] = true
-						for _, sc := range b.Succs {
-							fill(sc)
-						}
-					}
-					fill(at)
-					nl, consumed := 0, true
-					for _, lf := range leaves {
-						if !inLoop[lf.pred] {
-							continue
-						}
-						nl++
-						if iv := lf.val[idxPhi]; iv.base != idx || iv.off != 2 {
-							consumed = false
-						}
-					}
-					twoCovered[s] = true
-					r.ok(key+"|chars", p.InstrPos(al), fmt.Sprintf("emitted only when the current character is %q and the look-ahead character is %q", s[0], s[1]))
-					r.add(posV == idx, key+"|pos", p.InstrPos(al), "an operator recognised by look-ahead starts at the current index")
-					r.add(nl > 0 && consumed, key+"|consumed", p.InstrPos(al), "the second byte of an operator recognised by look-ahead is skipped: the index advances by two on every way to the next iteration")
+			if s, isC := constString(dataV); isC {
+				key := fmt.Sprintf("tok|%q", s) + tag
+				if tpc, ok := constInt(tpV); !ok || tpc != opTok {
+					r.hit(key, p.InstrPos(al), "constant-text token is not an OPERATOR token")
 					return
 				}
-				if prevOK && eqOK {
-					twoCovered[s] = true
+				if _, isOp := s2o[s]; !isOp {
+					r.hit(key, p.InstrPos(al), "operator token text is not an operator spelling")
+					return
 				}
-				r.add(prevOK && eqOK, key+"|chars", p.InstrPos(al), fmt.Sprintf("emitted only when the previous character is %q and the current one is %q", s[0], s[1]))
-				r.add(posOK, key+"|pos", p.InstrPos(al), "a two-character operator starts one byte before the current index")
-			} else {
-				eqOK := false
-				for _, a := range atoms {
-					if a.Op == token.EQL && a.X == char {
-						if c, ok := constInt(a.Y); ok && len(s) == 1 && c == int64(s[0]) {
-							eqOK = true
-						}
-					}
-				}
-				r.add(eqOK, key+"|chars", p.InstrPos(al), "emitted only when the current character is that operator")
-				r.add(posV == idx, key+"|pos", p.InstrPos(al), "a one-character operator is at the current index")
-			}
-			return
-		}
-		// Data = string(char)
-		if cv, ok := dataV.(*ssa.Convert); ok && cv.X == char {
-			key := fmt.Sprintf("tok|string(char)#%d", n) + tag
-			r.add(posV == idx, key, p.InstrPos(al), "a single-character token carries the current character and the current index")
-			return
-		}
-		// Data = string(prev) + "=": the two-character operators built by one shared arm
-		if bo, ok := dataV.(*ssa.BinOp); ok && bo.Op == token.ADD {
-			if cv, ok := bo.X.(*ssa.Convert); ok {
-				if _, isPhi := cv.X.(*ssa.Phi); isPhi {
-					if tail, isC := constString(bo.Y); isC && len(tail) == 1 {
-						key := fmt.Sprintf("tok|string(prev)+%q#%d", tail, n) + tag
-						eqOK := false
-						for _, a := range atoms {
-							if a.Op == token.EQL && a.X == char {
-								if c, ok := constInt(a.Y); ok && c == int64(tail[0]) {
+				if len(s) == 2 {
+					prevOK, eqOK := false, false
+					for _, a := range atoms {
+						if a.Op == token.EQL {
+							if c, ok := constInt(a.Y); ok {
+								if _, isPhi := a.X.(*ssa.Phi); isPhi && c == int64(s[0]) {
+									prevOK = true
+								}
+								if a.X == char && c == int64(s[1]) {
 									eqOK = true
 								}
 							}
 						}
-						// the previous characters under which this arm is reached
-						chars, closed := prevCharsInto(at, cv.X)
-						spell := true
-						for _, c := range chars {
-							sp := string(rune(c)) + tail
-							if _, isOp := s2o[sp]; !isOp {
-								spell = false
-							}
-							twoCovered[sp] = true
+					}
+					posOK := false
+					if bo, ok := posV.(*ssa.BinOp); ok && bo.Op == token.SUB && bo.X == idx {
+						if c, ok := constInt(bo.Y); ok && c == 1 {
+							posOK = true
 						}
-						posOK := false
-						if b2, ok := posV.(*ssa.BinOp); ok && b2.Op == token.SUB && b2.X == idx {
-							if c, ok := constInt(b2.Y); ok && c == 1 {
-								posOK = true
+					}
+					// look-ahead form: current character s[0], next character s[1], token at the current index, and the
+					// second byte is consumed (the index advances by two on every way from here to the next iteration)
+					curOK, nextOK := false, false
+					for _, a := range atoms {
+						if a.Op == token.EQL {
+							if c, ok := constInt(a.Y); ok {
+								if a.X == char && c == int64(s[0]) {
+									curOK = true
+								}
+								if isNextChar(p, a.X, idx) && c == int64(s[1]) {
+									nextOK = true
+								}
 							}
 						}
-						r.add(eqOK && closed && spell && len(chars) > 0, key+"|chars", p.InstrPos(al), fmt.Sprintf("emitted only when the current character is %q and the previous one is one of %q, each giving an operator spelling", tail, chars))
-						r.add(posOK, key+"|pos", p.InstrPos(al), "a two-character operator starts one byte before the current index")
+					}
+					if curOK && nextOK && !(prevOK && eqOK) {
+						inLoop := map[*ssa.BasicBlock]bool{}
+						var fill func(b *ssa.BasicBlock)
+						fill = func(b *ssa.BasicBlock) {
+							if inLoop[b] || b == L.Header {
+								return
+							}
+							inLoop[b] = true
+							for _, sc := range b.Succs {
+								fill(sc)
+							}
+						}
+						fill(at)
+						nl, consumed := 0, true
+						for _, lf := range leaves {
+							if !inLoop[lf.pred] {
+								continue
+							}
+							nl++
+							if iv := lf.val[idxPhi]; iv.base != idx || iv.off != 2 {
+								consumed = false
+							}
+						}
+						twoCovered[s] = true
+						r.ok(key+"|chars", p.InstrPos(al), fmt.Sprintf("emitted only when the current character is %q and the look-ahead character is %q", s[0], s[1]))
+						r.add(posV == idx, key+"|pos", p.InstrPos(al), "an operator recognised by look-ahead starts at the current index")
+						r.add(nl > 0 && consumed, key+"|consumed", p.InstrPos(al), "the second byte of an operator recognised by look-ahead is skipped: the index advances by two on every way to the next iteration")
 						return
+					}
+					if prevOK && eqOK {
+						twoCovered[s] = true
+					}
+					r.add(prevOK && eqOK, key+"|chars", p.InstrPos(al), fmt.Sprintf("emitted only when the previous character is %q and the current one is %q", s[0], s[1]))
+					r.add(posOK, key+"|pos", p.InstrPos(al), "a two-character operator starts one byte before the current index")
+				} else {
+					eqOK := false
+					for _, a := range atoms {
+						if a.Op == token.EQL && a.X == char {
+							if c, ok := constInt(a.Y); ok && len(s) == 1 && c == int64(s[0]) {
+								eqOK = true
+							}
+						}
+					}
+					r.add(eqOK, key+"|chars", p.InstrPos(al), "emitted only when the current character is that operator")
+					r.add(posV == idx, key+"|pos", p.InstrPos(al), "a one-character operator is at the current index")
+				}
+				return
+			}
+			// Data = string(char)
+			if cv, ok := dataV.(*ssa.Convert); ok && cv.X == char {
+				key := fmt.Sprintf("tok|string(char)#%d", n) + tag
+				r.add(posV == idx, key, p.InstrPos(al), "a single-character token carries the current character and the current index")
+				return
+			}
+			// Data = string(prev) + "=": the two-character operators built by one shared arm
+			if bo, ok := dataV.(*ssa.BinOp); ok && bo.Op == token.ADD {
+				if cv, ok := bo.X.(*ssa.Convert); ok {
+					if _, isPhi := cv.X.(*ssa.Phi); isPhi {
+						if tail, isC := constString(bo.Y); isC && len(tail) == 1 {
+							key := fmt.Sprintf("tok|string(prev)+%q#%d", tail, n) + tag
+							eqOK := false
+							for _, a := range atoms {
+								if a.Op == token.EQL && a.X == char {
+									if c, ok := constInt(a.Y); ok && c == int64(tail[0]) {
+										eqOK = true
+									}
+								}
+							}
+							// the previous characters under which this arm is reached
+							chars, closed := prevCharsInto(at, cv.X)
+							spell := true
+							for _, c := range chars {
+								sp := string(rune(c)) + tail
+								if _, isOp := s2o[sp]; !isOp {
+									spell = false
+								}
+								twoCovered[sp] = true
+							}
+							posOK := false
+							if b2, ok := posV.(*ssa.BinOp); ok && b2.Op == token.SUB && b2.X == idx {
+								if c, ok := constInt(b2.Y); ok && c == 1 {
+									posOK = true
+								}
+							}
+							r.add(eqOK && closed && spell && len(chars) > 0, key+"|chars", p.InstrPos(al), fmt.Sprintf("emitted only when the current character is %q and the previous one is one of %q, each giving an operator spelling", tail, chars))
+							r.add(posOK, key+"|pos", p.InstrPos(al), "a two-character operator starts one byte before the current index")
+							return
+						}
 					}
 				}
 			}
-		}
-		// anything else must be text cut out of the query (words, numbers, quoted literals: WORDRESET)
-		if dataV != nil && p.derivesFromField(dataV, "Lexer", "Query", traceOpts{IntoReturns: true, MaxDepth: 2}) {
-			// ... and reports the recorded start offset of the pending text, the variable buildToken receives for words
-			if offPhi != nil {
-				r.add(posV == ssa.Value(offPhi), fmt.Sprintf("tok|cut#%d|pos", n)+tag, p.InstrPos(al), "a token whose text is cut out of the query reports the recorded start offset of that text (the variable passed to buildToken), not the slice start or the scan index")
+			// anything else must be text cut out of the query (words, numbers, quoted literals: WORDRESET)
+			if dataV != nil && p.derivesFromField(dataV, "Lexer", "Query", traceOpts{IntoReturns: true, MaxDepth: 2}) {
+				// ... and reports the recorded start offset of the pending text, the variable buildToken receives for words
+				if offPhi != nil {
+					r.add(posV == ssa.Value(offPhi), fmt.Sprintf("tok|cut#%d|pos", n)+tag, p.InstrPos(al), "a token whose text is cut out of the query reports the recorded start offset of that text (the variable passed to buildToken), not the slice start or the scan index")
+				}
+				return
 			}
-			return
+			r.hit(fmt.Sprintf("tok|unclassified#%d", n)+tag, p.InstrPos(al), "a token literal in the scanner is neither a constant operator, string(char), string(prev)+c, nor text cut out of the query")
 		}
-		r.hit(fmt.Sprintf("tok|unclassified#%d", n) + tag, p.InstrPos(al), "a token literal in the scanner is neither a constant operator, string(char), string(prev)+c, nor text cut out of the query")
-			}
 		// one literal fed by locals merged from several arms (`opData, opPos := "=", i; switch prev { ... }`): each arm on its own
 		if dph, ok := dataV.(*ssa.Phi); ok {
 			pph, _ := posV.(*ssa.Phi)
